@@ -96,6 +96,9 @@ type HarnessResult struct {
 	AllocBound  int64
 }
 
+// stub targets whose stub is a model for the symbolic run only (native replay uses the real code)
+var symbolicOnly = map[string]bool{}
+
 type loaded struct {
 	prog  *ssa.Program
 	pkg   *ssa.Package
@@ -155,6 +158,12 @@ func loadGroup(g GroupCfg) (*loaded, error) {
 				if strings.HasPrefix(c.Text, "//verif:stub ") {
 					fields := strings.Fields(c.Text[len("//verif:stub "):])
 					stubTargets[fd.Name.Name] = fields[0]
+					for _, fl := range fields[1:] {
+						if fl == "replay=real" {
+							// a model used by the symbolic run only: the native replay runs the real function
+							symbolicOnly[fields[0]] = true
+						}
+					}
 				}
 			}
 		}
